@@ -45,14 +45,14 @@ BOUNDS = {
               "constructor: raw arguments (each an int or a pair)": "0..2, all int/pair shapes",
               "merge_overlapping_intervals: sorted non-empty ranges": "0..4",
               "equality: canonical (ka,kb)": "ka,kb <= 2; constructor-built from raw lists (1,1),(2,1)",
-              "iteration": "<= 2 ranges, <= 5 elements in total, symbolic position"},
+              "iteration": "1 range of <= 5 elements, 2 ranges of <= 3 elements each, symbolic positions"},
     "thorough": {"end points / probe": "every integer in [-2**31, 2**31) (probe: 2 beyond on each side)",
                  "binary operations: (ranges in a, ranges in b)": [list(s) for s in THOROUGH_SHAPES],
                  "contains: ranges": "0..6", "cardinality/len/empty: ranges": "0..6",
                  "constructor: raw arguments (each an int or a pair)": "0..3, all int/pair shapes",
                  "merge_overlapping_intervals: sorted non-empty ranges": "0..6",
                  "equality: canonical (ka,kb)": "ka,kb <= 3; constructor-built from raw lists up to (2,2)",
-                 "iteration": "<= 3 ranges, <= 7 elements in total, symbolic position"},
+                 "iteration": "1 range of <= 8, 2 ranges of <= 4 each, 3 ranges of <= 3 elements each, symbolic positions"},
 }
 OUTSIDE = ["more ranges per operand than the listed shapes (the loops are uniform in the number of ranges; stated, not claimed)",
            "end points of magnitude >= 2**31 (the code contains no width-dependent operation)",
@@ -482,19 +482,30 @@ def _make_range_shim(cap):
 
 
 class IterHarness(Base):
-    """iteration yields exactly the elements of the set, each once"""
+    """iteration yields exactly the elements of the set, each once.  The ranges sit at arbitrary
+    (symbolic) positions; each holds between 1 and m elements (the trip count of the real loop
+    over range(lo, hi + 1) must be finite for an execution, so the size is bounded, the position not)."""
 
-    def __init__(self, k, total):
-        self.k, self.total = k, total
-        self.name = f"IntegerSet.__iter__[{k} ranges,<={total} elements]"
-        self.params = dict(k=k, total=total)
+    def __init__(self, k, m):
+        self.k, self.m = k, m
+        self.name = f"IntegerSet.__iter__[{k} ranges,<={m} elements each]"
+        self.params = dict(k=k, m=m)
 
     def shim_extra(self):
-        return {"range": _make_range_shim(self.total + 2)}
+        return {"range": _make_range_shim(self.m + 1)}
 
     def inputs(self, mk):
-        a = canon_state(mk, "a", self.k)
-        mk.assume(card_canon(a) <= self.total)
+        a = []
+        prev = None
+        for j in range(self.k):
+            lo = mk.int(f"a{j}lo", LO, HI)
+            n = mk.int(f"a{j}extra", 0, self.m - 1)      # hi - lo
+            hi = lo + n
+            mk.assume(hi <= HI)
+            if prev is not None:
+                mk.assume(prev + 1 < lo)
+            prev = hi
+            a.append((lo, hi))
         return dict(a=a, x=probe(mk))
 
     def run(self, i):
@@ -509,7 +520,7 @@ class IterHarness(Base):
         return {"yields-only-members": sym_and(True, *[R.member(a, y) for y in ys]),
                 "yields-every-member": implies(R.member(a, x), sym_or(False, *[y == x for y in ys])),
                 "yields-each-once": sym_and(True, *distinct),
-                "count-is-cardinality": len(ys) == R.card(a)}
+                "count-is-cardinality": len(ys) == R.card_disjoint(a)}
 
 
 # -- factories ---------------------------------------------------------------------------------
@@ -549,8 +560,8 @@ def mk_law(law, ka, kb):
     return LawHarness(law, ka, kb)
 
 
-def mk_iter(k, total):
-    return IterHarness(k, total)
+def mk_iter(k, m):
+    return IterHarness(k, m)
 
 
 def _shapes(n):
@@ -595,8 +606,8 @@ def jobs(tier, seed):
     for law in LAWS:
         for ka, kb in ([(1, 1)] if quick else [(1, 1), (2, 1), (1, 2)]):
             light.append(("mk_law", dict(law=law, ka=ka, kb=kb)))
-    for k, total in ([(0, 5), (1, 5), (2, 5)] if quick else [(0, 7), (1, 7), (2, 7), (3, 7)]):
-        light.append(("mk_iter", dict(k=k, total=total)))
+    for k, m in ([(0, 1), (1, 5), (2, 3)] if quick else [(0, 1), (1, 8), (2, 4), (3, 3)]):
+        light.append(("mk_iter", dict(k=k, m=m)))
     # longest jobs first
     heavy.sort(key=lambda j: -(j[1].get("ka", 0) + j[1].get("kb", 0) + len(j[1].get("shape", "")) +
                                (1 if j[1].get("op") == "symmetric_difference" else 0)))
